@@ -30,6 +30,62 @@ def build(chk):
     c_tmunu(chk)
     c_getdeltas(chk)
     c_helpers_do_not_touch_the_deviation(chk)
+    c_containers(chk)
+
+
+def c_containers(chk):
+    """Linearity is carried through the container arithmetic the solver uses for its damped updates (multiplier * new + (1 - multiplier) *
+    old): BoltzmannDeltas +, -, number * , * number act on each of the four moments separately, and BoltzmannResults does the same on deltaF
+    and Deltas, so a linear combination of moment sets IS the moment set of the linear combination of deviations."""
+    NAMES = ("Delta00", "Delta02", "Delta20", "Delta11")
+
+    def deltas(tag):
+        return SymObj("BoltzmannDeltas", "containers", label=f"deltas.{tag}", attrs={n: real(f"{n}.{tag}") for n in NAMES})
+    lam = real("number")
+    fnq = "containers.BoltzmannDeltas"
+    cases = {"__add__": (lambda a, b: [deltas("b")], lambda x, y, l: x + y), "__sub__": (lambda a, b: [deltas("b")], lambda x, y, l: x - y),
+             "__mul__": (lambda a, b: [lam], lambda x, y, l: l * x), "__rmul__": (lambda a, b: [lam], lambda x, y, l: l * x)}
+    for meth, (mkargs, spec) in cases.items():
+        def mk(it, mkargs=mkargs):
+            a = deltas("a")
+            args = mkargs(a, None)
+            return a, args, {}, {"a": a, "args": args}
+        rets = sel(chk.summarize("containers", f"BoltzmannDeltas.{meth}", mk))
+        if len(rets) != 1:
+            chk.undecided.append(f"BoltzmannDeltas.{meth}: {len(rets)} returning paths")
+            continue
+        p = rets[0]
+        r = p.value
+        a = p.state["a"]
+        b = p.state["args"][0]
+        ok = isinstance(r, SymObj) and all(n in r.attrs for n in NAMES)
+        goals = []
+        if ok:
+            for n in NAMES:
+                y = b.attrs[n] if isinstance(b, SymObj) else None
+                goals.append(Eq(r.attrs[n], spec(a.attrs[n], y, lam)))
+        chk.vc(f"BoltzmannDeltas.{meth}.acts-on-each-moment-separately", p.pc, And(*goals) if ok else sp.false, func=f"{fnq}.{meth}")
+    # BoltzmannResults: deltaF and Deltas combine linearly (the error estimates combine with |number| by design)
+    def results(tag):
+        return SymObj("BoltzmannResults", "results", label=f"results.{tag}",
+                      attrs={"deltaF": real(f"deltaF.{tag}"), "Deltas": real(f"Deltas.{tag}"), "truncationError": real(f"trunc.{tag}"),
+                             "linearizationCriterion1": real(f"lin1.{tag}"), "linearizationCriterion2": real(f"lin2.{tag}")})
+    rcases = {"__add__": (lambda: [results("b")], lambda x, y, l: x + y), "__sub__": (lambda: [results("b")], lambda x, y, l: x - y),
+              "__mul__": (lambda: [lam], lambda x, y, l: l * x), "__rmul__": (lambda: [lam], lambda x, y, l: l * x)}
+    for meth, (mkargs, spec) in rcases.items():
+        def mk2(it, mkargs=mkargs):
+            a = results("a")
+            args = mkargs()
+            return a, args, {}, {"a": a, "args": args}
+        rets = sel(chk.summarize("results", f"BoltzmannResults.{meth}", mk2))
+        if len(rets) != 1:
+            chk.undecided.append(f"BoltzmannResults.{meth}: {len(rets)} returning paths")
+            continue
+        p = rets[0]
+        r, a, b = p.value, p.state["a"], p.state["args"][0]
+        ok = isinstance(r, SymObj) and "deltaF" in r.attrs and "Deltas" in r.attrs
+        goals = [Eq(r.attrs[n], spec(a.attrs[n], b.attrs[n] if isinstance(b, SymObj) else None, lam)) for n in ("deltaF", "Deltas")] if ok else [sp.false]
+        chk.vc(f"BoltzmannResults.{meth}.deviation-and-moments-combine-linearly", p.pc, And(*goals), func=f"results.BoltzmannResults.{meth}")
 
 
 def c_helpers_do_not_touch_the_deviation(chk):
